@@ -318,7 +318,7 @@ pub struct MomCase {
 
 pub struct Momentum;
 
-fn momentum_run<S: Settings>(s: &S, c: &MomCase, n_tune: usize, n: usize) -> Result<(Vec<Vec<f64>>, Vec<Vec<f64>>, bool), String> {
+fn momentum_run<S: Settings>(s: &S, c: &MomCase, n_tune: usize, n: usize) -> Result<(Vec<Vec<f64>>, Vec<Vec<f64>>, bool, bool), String> {
     let dens = LogDensity::new(DensSpec::DiagGauss { mean: vec![0.5; c.d], sigma: (0..c.d).map(|i| 0.3 + i as f64).collect() }).counting_only();
     let math = Spy::recording(CpuMath::new(dens));
     let mut rng = ChaCha8Rng::seed_from_u64(c.seed);
@@ -353,7 +353,11 @@ fn momentum_run<S: Settings>(s: &S, c: &MomCase, n_tune: usize, n: usize) -> Res
             return Err(format!("draw {t}: no momentum was drawn"));
         }
     }
-    Ok((momenta, ypos, stds_ok))
+    // every trajectory starts from the momentum that was drawn for it: the first velocity kick after a momentum draw reads
+    // exactly the drawn vector (observed by the recording Math wrapper)
+    let kicks = &chain.math().rec.first_kick_reads_draw;
+    let kicks_ok = !kicks.is_empty() && kicks.iter().all(|k| *k) && chain.math().fresh.is_none();
+    Ok((momenta, ypos, stds_ok, kicks_ok))
 }
 
 impl Part for Momentum {
@@ -363,7 +367,7 @@ impl Part for Momentum {
     }
     fn rule(&self) -> String {
         "diag / low-rank NUTS, Euclidean / ExactNormal, d in 1..8, 100 warmup + 4000 draws with a recording Math wrapper: scale argument of \
-         every momentum draw is all ones; pooled momenta: KS distance to the standard normal below 3.3/sqrt(n), |z| <= 6.5 for mean, \
+         every momentum draw is all ones, every drawn momentum is read exactly as drawn by a velocity kick before the next one is drawn; pooled momenta: KS distance to the standard normal below 3.3/sqrt(n), |z| <= 6.5 for mean, \
          variance, lag-1 correlation between consecutive trajectories and correlation with the whitened end position of the previous \
          trajectory; non-trivial = completed run; distinct by (preset, kinetic energy, d)"
             .into()
@@ -385,7 +389,7 @@ impl Part for Momentum {
         spec.store_transformed = true;
         let any = spec.build();
         let r = with_settings!(any, s => momentum_run(&s, c, 100, 4000));
-        let (mom, ypos, stds_ok) = match r {
+        let (mom, ypos, stds_ok, kicks_ok) = match r {
             Ok(x) => x,
             Err(m) => {
                 o.set_fail(format!("C04:{}", panic_signature(&m)), m);
@@ -394,6 +398,10 @@ impl Part for Momentum {
         };
         if !stds_ok {
             o.set_fail("C04:momentum-scale", "momentum drawn with a scale argument different from one".to_string());
+            return o;
+        }
+        if !kicks_ok {
+            o.set_fail("C04:momentum-not-used-as-drawn", "a drawn momentum was never read, exactly as drawn, by a velocity kick (it was modified or discarded before the trajectory started)".to_string());
             return o;
         }
         let d = c.d;
